@@ -143,6 +143,8 @@ class Interp:
         self.idx = idx
         self.cls = cls
         self.h = hooks or Hooks()
+        if hasattr(self.h, 'attach'):
+            self.h.attach(idx)
         self.max_depth = max_depth
         self.max_unroll = max_unroll
         self.depth = 0
@@ -431,6 +433,9 @@ class Interp:
                         out.append((q, ('field', lv[1] + '.' + n['name'], n)))
                     elif lv[0] == 'deref':
                         out.append((q, ('field', lv[1] + '->' + n['name'], n)))
+                    elif lv[0] == 'mem' and str(lv[1]).startswith('ARRAY:'):
+                        # member of an element of an array of structs: one store per member, indexed like the array
+                        out.append((q, ('mem', self.h.array_space(lv[1][len('ARRAY:'):] + '.' + n['name']), lv[2], n)))
                     else:
                         raise AnalysisBroken('unsupported member access base %r at %s' % (lv[0], pos(n)))
                 return out
